@@ -194,6 +194,22 @@ func genC19(mode string, depth, batch int) func(t *rapid.T) c19Case {
 				raw, _ := json.Marshal(&prover.Proof{Proof: p})
 				c.Stdin, c.Note = string(raw), "library"
 			}
+			// the same JSON value in the layouts the project's own tools and a shell produce: as written by the HTTP
+			// endpoint (no newline), as printed by 'prove' (newline), re-indented over several lines, CRLF
+			switch pick(t, "layout", "", "", "nl", "indent", "crlf") {
+			case "nl":
+				c.Stdin += "\n"
+				c.Note += "/newline"
+			case "indent":
+				var ib bytes.Buffer
+				if json.Indent(&ib, []byte(c.Stdin), "", "  ") == nil {
+					c.Stdin = ib.String() + "\n"
+					c.Note += "/indented"
+				}
+			case "crlf":
+				c.Stdin += "\r\n"
+				c.Note += "/crlf"
+			}
 			hv := m.InputHash
 			if rapid.IntRange(0, 3).Draw(t, "plus_r") == 0 {
 				hv = new(big.Int).Add(hv, ref.R)
